@@ -30,6 +30,7 @@ LENSES = {
     "C12": "c12",
     "C13": "c13",
     "C14": "c14",
+    "C16": "c16",
     "C17": "c17",
 }
 
@@ -188,6 +189,8 @@ def main(argv=None):
     ap.add_argument("--jobs", type=int, default=min(16, os.cpu_count() or 4))
     ap.add_argument("--no-minimise", action="store_true")
     ap.add_argument("--keep-going", action="store_true")
+    ap.add_argument("--only-run", type=int, help="run just this run index (then minimise / write replay as usual)")
+    ap.add_argument("--no-known", action="store_true", help="ignore known_findings.json (no quarantine, no pinned replays)")
     args = ap.parse_args(argv)
     world.bootstrap()
     global _LENS, _TIER, _QUAR
@@ -204,7 +207,7 @@ def main(argv=None):
 
     for pn in lens.PROGRAMS:
         harness.prepare_program(catalogue.get(pn), pn)
-    known = [k for k in load_known() if k["property"] == prop]
+    known = [] if args.no_known else [k for k in load_known() if k["property"] == prop]
     _QUAR = tuple(q for k in known if k["status"] == "open" for q in k.get("quarantine", []))
     t0 = time.time()
 
